@@ -57,6 +57,8 @@ type JobResult struct {
 	Witness    int
 	GlobalW    map[string]bool
 	GlobalR    map[string]bool
+	LoopFuncs  map[string]bool
+	Wall       time.Duration
 	MaxTrace   int
 	Notes      []string
 	Err        string
@@ -138,6 +140,8 @@ func (r *Runner) argsFor(e *Exec, fn *ssa.Function, params []int) []Value {
 func (r *Runner) runJob(job Job, st *Store, sol *Solver) (jr JobResult) {
 	jr.Job = job
 	jr.Funcs = map[string]bool{}
+	jstart := time.Now()
+	defer func() { jr.Wall = time.Since(jstart) }()
 	defer func() {
 		if x := recover(); x != nil {
 			jr.Err = fmt.Sprintf("engine panic: %v", x)
@@ -155,7 +159,7 @@ func (r *Runner) runJob(job Job, st *Store, sol *Solver) (jr JobResult) {
 	}
 	e := &Exec{st: st, sol: sol, prog: r.L.prog, L: r.L, overrides: job.Overrides, harnessPkg: pkg,
 		funcsSeen: jr.Funcs, maxForks: 64, unwind: 70000, qcache: map[[2]int]Verdict{},
-		globalW: map[string]bool{}, globalR: map[string]bool{}}
+		globalW: map[string]bool{}, globalR: map[string]bool{}, loopFuncs: map[string]bool{}}
 	if job.MaxForks > 0 {
 		e.maxForks = job.MaxForks
 	}
@@ -213,6 +217,7 @@ func (r *Runner) runJob(job Job, st *Store, sol *Solver) (jr JobResult) {
 	jr.SolverTime = sol.Time - t0
 	jr.GlobalW = e.globalW
 	jr.GlobalR = e.globalR
+	jr.LoopFuncs = e.loopFuncs
 	return
 }
 
@@ -243,6 +248,12 @@ func (r *Runner) discharge(job Job, e *Exec, pr PathResult, pid string) []OblRes
 		res := OblResult{Name: job.Label + "/" + o.Name + "@" + pid, Kind: o.Kind, Detail: o.Detail}
 		if o.Cond.IsTrue() {
 			res.Verdict = "trivial"
+			if len(o.Ident) > 0 {
+				// discharged by syntactic identity of non-constant terms
+				res.Verdict = "identity"
+				all := &Term{op: OpBAnd, id: -1, a: o.Ident}
+				res.Hash, res.NVars = termHash(all)
+			}
 			out = append(out, res)
 			continue
 		}
